@@ -108,22 +108,42 @@ def gate_no_admits():
 # --------------------------------------------------------------------------
 # running
 
+_case_no = [0]
+
+
 def run_harness(cmd, lines, timeout=600):
-    """Run harness <cmd> with the given JSON-able inputs, one per line;
-    return the list of JSON outputs."""
-    data = "".join(json.dumps(l) + "\n" for l in lines).encode()
-    p = sh([HARNESS, cmd], input_bytes=data, timeout=timeout, check=False)
+    """Run harness <cmd> on the given JSON-able inputs (one per line, passed
+    in a file: the harness's stdin stays empty because the VM's READ
+    instruction reads it).  Returns the list of JSON outputs.  If the harness
+    stops after a hang (exit 3) it is restarted on the remaining cases."""
+    os.makedirs(os.path.join(BUILD, "cases"), exist_ok=True)
     outs = []
-    for ln in p.stdout.decode(errors="replace").splitlines():
-        ln = ln.strip()
-        if ln:
-            try:
-                outs.append(json.loads(ln))
-            except ValueError:
-                raise CheckError("harness %s wrote a non-JSON line: %r" % (cmd, ln[:300]))
-    if p.returncode != 0:
-        raise CheckError("harness %s exited %d after %d outputs\n%s" % (
-            cmd, p.returncode, len(outs), p.stderr.decode(errors="replace")[-3000:]))
+    pos = 0
+    while pos < len(lines):
+        _case_no[0] += 1
+        path = os.path.join(BUILD, "cases", "in_%s_%d_%d.jsonl" % (cmd, os.getpid(), _case_no[0]))
+        with open(path, "w") as f:
+            for l in lines[pos:]:
+                f.write(json.dumps(l) + "\n")
+        p = subprocess.run([HARNESS, cmd, path], stdin=subprocess.DEVNULL, stdout=subprocess.PIPE,
+                           stderr=subprocess.PIPE, timeout=timeout)
+        os.unlink(path)
+        got = []
+        for ln in p.stdout.decode(errors="replace").splitlines():
+            ln = ln.strip()
+            if ln:
+                try:
+                    got.append(json.loads(ln))
+                except ValueError:
+                    raise CheckError("harness %s wrote a non-JSON line: %r" % (cmd, ln[:300]))
+        outs.extend(got)
+        pos += len(got)
+        if p.returncode == 3 and got and got[-1].get("hang"):
+            continue
+        if p.returncode != 0:
+            raise CheckError("harness %s exited %d after %d outputs\n%s" % (
+                cmd, p.returncode, len(outs), p.stderr.decode(errors="replace")[-3000:]))
+        break
     return outs
 
 
@@ -149,7 +169,7 @@ def coq_eval_cases(name, imports, case_terms, checker, shard=400, timeout=1800, 
         path = os.path.join(cdir, "%s_%d.v" % (name, si))
         with open(path, "w") as f:
             f.write("From Calc Require Import %s.\n" % " ".join(imports))
-            f.write("Open Scope Z_scope. Open Scope string_scope.\n")
+            f.write("Open Scope string_scope. Open Scope list_scope. Open Scope Z_scope.\n")
             f.write("Definition cases := [\n")
             f.write(";\n".join("(%d, %s)" % (off + i, t) for i, t in enumerate(chunk)))
             f.write("\n].\n")
@@ -183,6 +203,56 @@ def coq_eval_cases(name, imports, case_terms, checker, shard=400, timeout=1800, 
     return sorted(bad)
 
 
+def coq_eval_codes(name, imports, case_terms, fn, shard=50, timeout=3600, keep=False):
+    """Evaluate `fn : <case> -> Z` on every case; return {index: code} for the
+    cases whose code is not 0."""
+    cdir = os.path.join(BUILD, "cases")
+    os.makedirs(cdir, exist_ok=True)
+    for f in os.listdir(cdir):
+        if f.startswith(name + "_"):
+            os.unlink(os.path.join(cdir, f))
+    shards = []
+    for si, off in enumerate(range(0, len(case_terms), shard)):
+        chunk = case_terms[off:off + shard]
+        path = os.path.join(cdir, "%s_%d.v" % (name, si))
+        with open(path, "w") as f:
+            f.write("From Calc Require Import %s.\n" % " ".join(imports))
+            f.write("Open Scope string_scope. Open Scope list_scope. Open Scope Z_scope.\n")
+            f.write("Definition cases := [\n")
+            f.write(";\n".join("(%d, %s)" % (off + i, t) for i, t in enumerate(chunk)))
+            f.write("\n].\n")
+            f.write("Definition codes := Eval vm_compute in "
+                    "(filter (fun c => negb (snd c =? 0)) (map (fun c => (fst c, %s (snd c))) cases)).\n" % fn)
+            f.write("Print codes.\n")
+        shards.append(path)
+    res = {}
+
+    def one(path):
+        rc, out, err = coqc_file(path, timeout=timeout)
+        if rc != 0:
+            raise CheckError("model evaluation failed on %s:\n%s" % (os.path.basename(path), (out + err)[-3000:]))
+        m = re.search(r"codes\s*=\s*(.*?)\s*:\s*list", out, flags=re.S)
+        if not m:
+            raise CheckError("cannot parse model output of %s: %s" % (path, out[-500:]))
+        nums = [int(x) for x in re.findall(r"-?\d+", m.group(1))]
+        return list(zip(nums[0::2], nums[1::2]))
+
+    with ThreadPoolExecutor(max_workers=16) as ex:
+        for r in ex.map(one, shards):
+            for i, c in r:
+                res[i] = c
+    if not keep:
+        for path in shards:
+            for ext in (".v", ".vo", ".vok", ".vos", ".glob"):
+                q = path[:-2] + ext
+                if os.path.exists(q):
+                    os.unlink(q)
+            aux = os.path.join(os.path.dirname(path), "." + os.path.basename(path)[:-2] + ".aux")
+            if os.path.exists(aux):
+                os.unlink(aux)
+    return res
+
+
 def coq_eval_terms(name, imports, terms, timeout=600):
     """Evaluate arbitrary terms and return Coq's printed output per term (for
     replay files: what the model computed on a disagreeing case)."""
@@ -191,7 +261,7 @@ def coq_eval_terms(name, imports, terms, timeout=600):
     path = os.path.join(cdir, "%s_detail.v" % name)
     with open(path, "w") as f:
         f.write("From Calc Require Import %s.\n" % " ".join(imports))
-        f.write("Open Scope Z_scope. Open Scope string_scope.\n")
+        f.write("Open Scope string_scope. Open Scope list_scope. Open Scope Z_scope.\n")
         for i, t in enumerate(terms):
             f.write("Definition d%d := Eval vm_compute in (%s).\nPrint d%d.\n" % (i, t, i))
     rc, out, err = coqc_file(path, timeout=timeout)
